@@ -1,6 +1,7 @@
 package checks
 
 import (
+	"strings"
 	"fmt"
 	roprometheus "github.com/samber/ro/ee/plugins/prometheus"
 	"sync"
@@ -126,7 +127,7 @@ func TestC13_ShareAndConnectable(t *testing.T) {
 				wg.Add(1)
 				go func() { defer wg.Done(); defer func() { recover() }(); <-start; f() }()
 			}
-			if cfg.Form == "Connectable" {
+			if strings.Contains(cfg.Form, "Connectable") {
 				conn := ro.ConnectableWithConfig(man.Observable(), ro.ConnectableConfig[int]{Connector: connectorOf(cfg.Cfg), ResetOnDisconnect: cfg.Reset})
 				run(func() { c := conn.Connect(); c.Unsubscribe() })
 				run(func() { conn.Connect() })
